@@ -114,6 +114,30 @@ def expected_pairs(el, sep, names):
     return out
 
 
+def dirty_names(rng, schema, sep):
+    """Decorate some names with separator characters (leading, trailing, inner, doubled)."""
+    def decorate(n):
+        c = rng.choice([sep, sep, sep[0], sep[-1]])
+        return rng.choice([c + n, n + c, c + n + c, c + c + n, n[:1] + c + n[1:], c])
+
+    def visit(s, siblings):
+        if s.get("name") is not None and rng.random() < 0.4:
+            new = decorate(s["name"])
+            if new not in siblings:
+                siblings.discard(s["name"])
+                siblings.add(new)
+                s["name"] = new
+        if s["t"] in ("dict", "compound"):
+            if s["t"] == "compound":
+                return          # member names of DateYYYYMMDD are fixed by the class
+            sib = {f["name"] for f in s["fields"]}
+            for f in s["fields"]:
+                visit(f, sib)
+        elif s["t"] in ("list", "array"):
+            visit(s["member"], set())
+    visit(schema, set())
+
+
 def path_names(el):
     return [p.name for p in el.path if p.name is not None]
 
@@ -182,6 +206,10 @@ class C07(Property):
                 if schema["t"] in ("leaf", "joined") and rng.random() < 0.9:
                     kinds = []
                     schema = fl.gen_schema(rng, sep, rng.choice([2, 3, 3, 4]), kinds)
+            if rng.random() < 0.3:
+                # C07 quantifies over ALL separators: names may start with, end in or contain separator
+                # characters (key = plain join of the names; only the uniqueness clause needs SepSafe)
+                dirty_names(rng, schema, sep)
             value = fl.gen_value(rng, schema, kinds, hostile=0.05)
             muts = []
             for _ in range(rng.choice([0, 0, 1, 2, 3, 4])):
